@@ -83,7 +83,7 @@ CONTRACTS = [
              float_mode="real",
              ensures=[("dotted_unit_value", lambda a, r: r == a.tempo * float(S.note_value(a.unit.strip().rstrip(".")) * S.dot_multiplier(a.unit.count("."))))]),
     Contract("C12", M + "seconds_to_midi_ticks",
-             [("time_in_seconds", Real(0, None)), ("mpq", Enum([500000, 250000, 600000, 428571, 1])), ("ppq", Enum([480, 96, 1, 960, 384]))],
+             [("time_in_seconds", Real(None, None)), ("mpq", Enum([500000, 250000, 600000, 428571, 1])), ("ppq", Enum([480, 96, 1, 960, 384]))],
              float_mode="real",
              ensures=[("nearest_tick", lambda a, r: (r - 10**6 * a.ppq * a.time_in_seconds / a.mpq <= Fraction(1, 2))
                        & (10**6 * a.ppq * a.time_in_seconds / a.mpq - r <= Fraction(1, 2))),
@@ -392,7 +392,7 @@ def closed_ticks_arrays():
     m = _music()
     n = 0
     for ppq, mpq in ((480, 500000), (96, 600000), (960, 250000)):
-        secs = np.array([0.0, 0.001, 0.5, 1.0, 1.2345, 10.0, 59.999, 3600.0])
+        secs = np.array([0.0, 0.001, 0.5, 1.0, 1.2345, 10.0, 59.999, 3600.0, -0.001, -0.5011, -2.0, -1.2345, -59.999])
         n += 1
         try:
             arr = m.seconds_to_midi_ticks(secs, mpq=mpq, ppq=ppq)
